@@ -108,7 +108,8 @@ Print Assumptions C19_draw_panic_oversize.
 Theorem C19_draw_integers_spec : forall D merge_with_int dbytes (c : coin D) n dom nonce, 0 <= n ->
   let s' := nonce_seed D merge_with_int c nonce in
   coin_draw_integers D merge_with_int dbytes c n dom nonce =
-    if negb (is_pow2 dom) || (dom <=? n) then (c, Panic)
+    if negb (is_pow2 dom) then (c, Panic)
+    else if dom <=? n then (c, Err)
     else if n =? 0 then (mkCoin s' 1000, Ok (ints_vals D merge_with_int dbytes s' 0 (dom - 1) 1000))
     else if n <=? 1000 then (mkCoin s' n, Ok (ints_vals D merge_with_int dbytes s' 0 (dom - 1) (Z.to_nat n)))
     else (mkCoin s' 1000, Err).
@@ -137,15 +138,16 @@ Theorem C19_is_pow2_spec : forall x, is_pow2 x = true <-> exists k, 0 <= k /\ x 
 Proof. exact is_pow2_spec. Qed.
 Print Assumptions C19_is_pow2_spec.
 
-(* Panic domain (the two documented asserts) and Err domain (more than 1000 values) exactly *)
+(* Panic domain (the documented assert: domain not a power of two) and Err domain (count >= domain size, or more
+   than 1000 values) exactly *)
 Theorem C19_draw_integers_panic_iff : forall D merge_with_int dbytes (c : coin D) n dom nonce, 0 <= n ->
-  (snd (coin_draw_integers D merge_with_int dbytes c n dom nonce) = Panic <->
-   ((~ exists k, 0 <= k /\ dom = 2 ^ k) \/ dom <= n)).
+  (snd (coin_draw_integers D merge_with_int dbytes c n dom nonce) = Panic <-> ~ exists k, 0 <= k /\ dom = 2 ^ k).
 Proof. exact draw_integers_panic_iff. Qed.
 Print Assumptions C19_draw_integers_panic_iff.
 
 Theorem C19_draw_integers_err_iff : forall D merge_with_int dbytes (c : coin D) n dom nonce, 0 <= n ->
-  (snd (coin_draw_integers D merge_with_int dbytes c n dom nonce) = Err <-> (is_pow2 dom = true /\ 1000 < n < dom)).
+  (snd (coin_draw_integers D merge_with_int dbytes c n dom nonce) = Err <->
+   (is_pow2 dom = true /\ (dom <= n \/ 1000 < n))).
 Proof. exact draw_integers_err_iff. Qed.
 Print Assumptions C19_draw_integers_err_iff.
 
@@ -300,10 +302,10 @@ Print Assumptions C19_ex_draw_err.
 
 Theorem C19_ex_draw_integers :
   coin_draw_integers Z toy_merge_int toy_dbytes c0 5 8 7 = (mkCoin 12659942608561989065 5, Ok [0; 3; 1; 3; 5]) /\
-  coin_draw_integers Z toy_merge_int toy_dbytes c0 8 8 7 = (c0, Panic) /\
+  coin_draw_integers Z toy_merge_int toy_dbytes c0 8 8 7 = (c0, Err) /\
   coin_draw_integers Z toy_merge_int toy_dbytes c0 3 6 7 = (c0, Panic) /\
   coin_draw_integers Z toy_merge_int toy_dbytes c0 1001 2048 7 = (mkCoin 12659942608561989065 1000, Err).
-Proof. exact (conj draw_integers_ok_ex (conj draw_integers_panic_count (conj draw_integers_panic_pow2 draw_integers_err_ex))). Qed.
+Proof. exact (conj draw_integers_ok_ex (conj draw_integers_err_count (conj draw_integers_panic_pow2 draw_integers_err_ex))). Qed.
 Print Assumptions C19_ex_draw_integers.
 
 Theorem C19_ex_grind : toy_grind 200 c0 4 = Some 6 /\ coin_check_lz Z toy_merge_int toy_dbytes c0 1 = 1 /\
